@@ -656,10 +656,18 @@ class C14(Check):
             dct = [0, [d2["duration_matrix"], d2["machines_matrix"]]]
 
             def rebuild():
-                new = JobShopInstance.from_matrices(**d2)
+                d3 = copy.deepcopy(d2)
+                new = JobShopInstance.from_matrices(**d3)
+                # the caller goes on using (and editing) the matrices it passed in: the instance must not care
+                for row in d3["duration_matrix"]:
+                    for i in range(len(row)):
+                        row[i] = row[i] + 1
+                for row in d3["machines_matrix"]:
+                    for i in range(len(row)):
+                        row[i] = [0] if isinstance(row[i], list) else 0
                 return [common.spec_of_instance(new), new.name == case["name"], new.metadata == case["meta"],
                         [[[o.job_id, o.position_in_job, o.operation_id] for o in job] for job in new.jobs],
-                        same_json]
+                        same_json, views_of(new) == views]
             rt = res(rebuild)
         return common.norm([views, again == views, dct, rt])
 
@@ -868,7 +876,11 @@ class C14(Check):
                                      "to_dict / from_matrices raised on a well-formed instance",
                                      observed=[dct, rt]))
             else:
-                new_spec, name_ok, meta_ok, new_ids, same_json = rt[1]
+                new_spec, name_ok, meta_ok, new_ids, same_json, views_ok = rt[1]
+                if not views_ok:
+                    fails.append(Failure("oracle", "roundtrip-dict-views",
+                                         "the derived views of from_matrices(json(to_dict(I))) differ from those of I "
+                                         "(also after the caller edited the matrices it had passed in)"))
                 if new_spec != common.norm(spec) or not name_ok or not meta_ok or not same_json or new_ids != views[0][1]:
                     fails.append(Failure("oracle", "roundtrip-dict",
                                          "from_matrices(json(to_dict(I))) differs from I "
